@@ -82,6 +82,17 @@ CHECKS = {
         "note": "Trusted: Python ast, E1 resolver, the table of numpy calls that return views vs copies (sa/effect.py), the listed in-place helpers (each with its reason). Known finding: MapperValued.values_masked.",
         "technique": "static analysis: interprocedural effect / ownership analysis (alias tags, mutation summaries to a fixpoint), who-may-write rules, clone / cache-drop typestate, must-precede rule for RNG seeding",
     },
+    "C15": {
+        "text": "Decides, for every combination of preload slots, both imaging formalisms, every list of linear objects and any number of inversions sharing one Preloads object: (write) no in-place write reaches a preload slot - directly, through "
+                "any callee, or through a cached property some implementation of which may return the slot's array un-copied (effect analysis, so the in-place curvature+regularization sum provably works on a copy) - and no code outside "
+                "Preloads rebinds a slot; (short-circuit) all 42 reads of slots are a presence test, the guarded early return of exactly the quantity the slot was recorded from (provenance read off the Preloads.set_* methods), or a "
+                "substitution whose sibling branch computes that same quantity, so a finished preloaded value can never be processed a second time; a slot holding only the mapper part of a quantity stands for the whole only under an "
+                "all-mappers condition; (wiring) the factory chooses the formalism from settings.use_w_tilde / preloads.use_w_tilde / object kinds only, settings win, no w-tilde without a mapper, both formalisms are built from the same dataset, "
+                "objects and settings, the w-tilde object is the preloaded or the dataset's one and is checked against the fitted noise-map. Not decided: numerical agreement of the two formalisms (the algebra of C04) and of a user-supplied "
+                "preload with the recomputed value (the property's premise).",
+        "note": "Trusted: Python ast, E1 resolver, EFFECT engine tables. A genuine defect found by the short-circuit rule was repaired (fix 95ddc1d).",
+        "technique": "static analysis: interprocedural effect / ownership analysis for writes to preload slots; provenance table extracted from setters + site classification of every slot read; factory wiring rules",
+    },
     "C08": {
         "text": "Decides, for every dataset / mask / model: each of the 21 fit_util functions equals its definition as a canonical form (data - model, (r/n)^2, sum log(2 pi n^2), -(chi2+norm)/2, residual/data, "
                 "evidence polarities -1/2(chi2 + sHs + logdet(F+H) - logdet(H) + norm)); every _with_mask_ variant restricts EVERY array operand by mask == 0 (where= + zero out=, or boolean selection) so masked values cannot reach a sum; "
